@@ -55,6 +55,18 @@ theorem limits_refuse (src tgt xcells xframes : Nat) :
   · intro h; omega
   · intro h; omega
 
+/-- **The refusal test is the one in the source**: `LimitError::check_program` — regenerated check by
+check from src/bit_machine/limits.rs on every run — accepts exactly when the buffer and the frame
+stacks `for_program` would allocate are within the hard limits. -/
+theorem check_program_as_in_source (src tgt xcells xframes : Nat) :
+    Gen.Consts.checkProgramSrc src tgt xcells xframes = true ↔
+      src + tgt + xcells ≤ Gen.Consts.MAX_CELLS ∧ xframes + Gen.Consts.IO_EXTRA_FRAMES ≤ Gen.Consts.MAX_FRAMES := by
+  unfold Gen.Consts.checkProgramSrc
+  simp only [Bool.and_eq_true, decide_eq_true_eq]
+  constructor
+  · intro h; omega
+  · intro h; omega
+
 /-- the limits the theorems speak about are the ones in the source (regenerated every run) and
 leave room for the `usize` arithmetic of the code -/
 theorem limits_as_in_source :
